@@ -244,43 +244,36 @@ pub fn k_module_new_readback_len3() {
 }
 
 // ---- C04: ModuleIter yields exactly the module tags of the walk, in order.
-// Bounded: tag area of n <= 40 bytes (n symbolic multiple of 8), all bytes
-// symbolic subject to a well-formed walk (every size >= 8, every tag inside
-// the area, module tags size >= 16): up to 5 tags of any type in any order.
+// Bounded: a 64-byte tag area holding three tags at offsets 0, 24 and 40 with
+// symbolic declared sizes 17..=24, 9..=16 and 17..=24 (i.e. symbolic amounts of
+// padding), ANY type numbers (all 2^96 combinations: which of the three are
+// module tags is symbolic) and all other bytes symbolic.
 #[kani::proof]
-#[kani::unwind(7)]
+#[kani::unwind(6)]
 pub fn k_module_iter() {
-    let bytes = AlignedBytes(kani::any::<[u8; 40]>());
+    let bytes = AlignedBytes(kani::any::<[u8; 64]>());
     let b = &bytes.0;
-    let n: usize = kani::any();
-    kani::assume(n % 8 == 0 && n <= 40);
-    // independent walk
-    let mut offs = [0usize; 5];
-    let mut sizes = [0u32; 5];
-    let mut cnt = 0;
-    let mut off = 0;
-    while off < n {
-        let typ = le32(b, off);
-        let size = le32(b, off + 4);
-        kani::assume(size >= 8 && size <= 40 && off + round8(size as usize) <= n);
-        if typ == 3 {
-            kani::assume(size >= 16);
-            offs[cnt] = off;
-            sizes[cnt] = size;
-            cnt += 1;
-        }
-        off += round8(size as usize);
-    }
-    let mut it = module_iter(TagIter::new(&b[..n]));
+    let offs = [0usize, 24, 40];
+    let (s0, s1, s2) = (le32(b, 4) as usize, le32(b, 28) as usize, le32(b, 44) as usize);
+    kani::assume(s0 >= 17 && s0 <= 24 && s1 >= 9 && s1 <= 16 && s2 >= 17 && s2 <= 24);
+    // a module tag needs its 16-byte fixed part
+    kani::assume(le32(b, 24) != 3 || s1 == 16);
+    let is_mod = [le32(b, 0) == 3, le32(b, 24) == 3, le32(b, 40) == 3];
+    let mut it = module_iter(TagIter::new(&b[..]));
     let mut k = 0;
-    while k < cnt {
-        let m = it.next().unwrap();
-        assert!(core::ptr::addr_of!(*m).cast::<u8>() == b[offs[k]..].as_ptr());
-        assert!(m.header.size == sizes[k]);
-        assert!(m.cmdline.len() == sizes[k] as usize - 16);
+    while k < 3 {
+        if is_mod[k] {
+            let o = offs[k];
+            let m = it.next().unwrap();
+            assert!(core::ptr::addr_of!(*m).cast::<u8>() == b[o..].as_ptr());
+            assert!(m.header.size == le32(b, o + 4));
+            assert!(m.start_address() == le32(b, o + 8));
+            assert!(m.cmdline.len() == le32(b, o + 4) as usize - 16);
+        }
         k += 1;
     }
     assert!(it.next().is_none());
-    kani::cover!(cnt == 2 && offs[0] == 8 && offs[1] == 24);
-    kani::cover!(cnt == 0 && n == 24);
+    kani::cover!(is_mod[0] && !is_mod[1] && is_mod[2]);
+    kani::cover!(!is_mod[0] && !is_mod[1] && !is_mod[2]);
+    kani::cover!(is_mod[0] && is_mod[1] && is_mod[2]);
 }
